@@ -51,6 +51,7 @@ type obligation struct {
 type epochInfo struct {
 	fresh bool
 	parts []epochPart
+	top   string // allocation counter when the epoch began: every reference stored in its heaps is below it
 }
 type epochPart struct {
 	cond  string
@@ -349,7 +350,11 @@ func (v *vc) heapAt(name string, epoch int) string {
 	if ei.fresh {
 		t = q(key)
 		v.decl(t, sort)
-		v.heapAxiom(t, name)
+		etop := ei.top
+		if epoch == 0 && v.entry != nil {
+			etop = v.entry.top
+		}
+		v.heapAxiom(t, name, etop)
 	} else {
 		// merge epoch: ite over parts
 		terms := make([]string, len(ei.parts))
@@ -427,20 +432,65 @@ func (v *vc) regHeapT(name, sort string, valType types.Type) {
 
 // heapAxiom states, for a freshly introduced heap constant, that every value stored in it satisfies the
 // invariant of its Go type (slices well-formed, integers in range, ...): memory is typed.
-func (v *vc) heapAxiom(constName, heapName string) {
+func (v *vc) heapAxiom(constName, heapName, top string) {
 	t := v.heapValType[heapName]
 	if t == nil {
 		return
 	}
 	if strings.HasPrefix(heapName, "A ") {
-		if inv := v.sc.typeInv(fmt.Sprintf("(select (select %s a) i)", constName), t); inv != "" {
+		el := fmt.Sprintf("(select (select %s a) i)", constName)
+		inv := v.sc.typeInv(el, t)
+		if top != "" {
+			// every reference stored, in the heap as it was then, in an array allocated by then had been
+			// allocated by then (rows of arrays not yet allocated are unconstrained: a callee that
+			// `modifies nothing` hands out fresh objects whose contents live in the same heap constant)
+			if rb := v.refBound(el, t, top, 0); rb != "" && rb != "true" {
+				inv = and(inv, fmt.Sprintf("(=> (< a %s) %s)", top, rb))
+			}
+		}
+		if inv != "" && inv != "true" {
 			v.rawFact(fmt.Sprintf("(forall ((a Int) (i Int)) (! %s :pattern ((select (select %s a) i))))", inv, constName))
 		}
 		return
 	}
-	if inv := v.sc.typeInv(fmt.Sprintf("(select %s r)", constName), t); inv != "" {
+	el := fmt.Sprintf("(select %s r)", constName)
+	inv := v.sc.typeInv(el, t)
+	if top != "" {
+		if rb := v.refBound(el, t, top, 0); rb != "" && rb != "true" {
+			inv = and(inv, fmt.Sprintf("(=> (and (< r %s) (< (elem_arr r) %s)) %s)", top, top, rb))
+		}
+	}
+	if inv != "" && inv != "true" {
 		v.rawFact(fmt.Sprintf("(forall ((r Int)) (! %s :pattern ((select %s r))))", inv, constName))
 	}
+}
+
+// refBound: the reference parts of a value of type t are below the allocation counter top ("" if it has none).
+func (v *vc) refBound(term string, t types.Type, top string, depth int) string {
+	switch u := t.Underlying().(type) {
+	case *types.Pointer, *types.Map, *types.Chan:
+		return fmt.Sprintf("(and (< %s %s) (< (elem_arr %s) %s))", term, top, term, top)
+	case *types.Slice:
+		return fmt.Sprintf("(< (s_arr %s) %s)", term, top)
+	case *types.Interface:
+		return fmt.Sprintf("(< (i_val %s) %s)", term, top)
+	case *types.Struct:
+		if isTime(t) || depth > 2 {
+			return ""
+		}
+		var parts []string
+		for i := 0; i < u.NumFields(); i++ {
+			ft := u.Field(i).Type()
+			switch ft.Underlying().(type) {
+			case *types.Pointer, *types.Map, *types.Chan, *types.Slice, *types.Interface, *types.Struct:
+				if p := v.refBound(fmt.Sprintf("(%s %s)", v.sc.structSel(t, i), term), ft, top, depth+1); p != "" {
+					parts = append(parts, p)
+				}
+			}
+		}
+		return and(parts...)
+	}
+	return ""
 }
 
 func (v *vc) globalHeap(g string, t types.Type) (name, sort string) {
